@@ -450,3 +450,101 @@ def leaf_exit_key_exhausted(ctx: Ctx) -> None:
             else:
                 ctx.ok(R, f, lp, 'a successful exit inside the loop is conditioned on the key position' if exits else 'success is only reported after the loop (the key is consumed)', key=key)
     ctx.require(n >= 2, 'IndexLevel key walkers')
+
+
+def sibling_offsets_running(ctx: Ctx) -> None:
+    R = 'I.sibling-offsets-running'
+    ctx.rule(R, 'sibling agreement of everything that puts IndexLevel nodes under a parent (from_product, from_index_items, from_level_data, IndexLevelGO.extend, '
+             'level_drop): a node\'s offset is relative to its parent and equals the total length of the siblings before it, so each loop that collects sibling nodes '
+             'carries a running total (`acc += len(node)`) that is given to the node (`offset=acc`, `.to_index_level(acc)`, `node.offset = acc`); and a function that '
+             'cuts leaves off (`node.targets = None`) recomputes lengths and offsets. Nodes moved with the offsets of their old parent answer lookups with wrong positions', floor=5)
+    prog = ctx.prog
+    n = 0
+    for f in prog.all_funcs():
+        if isinstance(f.node, ast.Lambda) or f.module.short not in ('index_level', 'index_hierarchy'):
+            continue
+        # names that end up as the children of a node
+        sinks: tp.Set[str] = set()
+        for c in ast.walk(f.node):
+            if isinstance(c, ast.Call):
+                for kw in c.keywords:
+                    if kw.arg == 'targets':
+                        sinks |= {x.id for x in ast.walk(kw.value) if isinstance(x, ast.Name)}
+                if call_name(c) == 'ArrayGO':
+                    sinks |= {x.id for a in c.args for x in ast.walk(a) if isinstance(x, ast.Name)}
+        # a generator whose items are appended to `.targets` by its parent
+        feeds_targets = f.parent is not None and f.is_generator() and any(
+            isinstance(c, ast.Call) and isinstance(c.func, ast.Attribute) and c.func.attr in ('extend', 'append') and isinstance(c.func.value, ast.Attribute)
+            and c.func.value.attr == 'targets' and any(isinstance(a, ast.Call) and isinstance(a.func, ast.Name) and a.func.id == f.name for a in c.args)
+            for c in ast.walk(f.parent.node))
+
+        def running(lp: ast.AST) -> tp.Optional[str]:
+            accs = {a.target.id for a in ast.walk(lp) if isinstance(a, ast.AugAssign) and isinstance(a.op, ast.Add) and isinstance(a.target, ast.Name)
+                    and any((isinstance(c, ast.Call) and call_name(c) == 'len') or (isinstance(c, ast.Call) and isinstance(c.func, ast.Attribute) and c.func.attr == '__len__')
+                            for c in ast.walk(a.value))}
+            for x in ast.walk(lp):
+                if isinstance(x, ast.Call):
+                    if any(kw.arg == 'offset' and isinstance(kw.value, ast.Name) and kw.value.id in accs for kw in x.keywords):
+                        return next(kw.value.id for kw in x.keywords if kw.arg == 'offset')
+                    if isinstance(x.func, ast.Attribute) and x.func.attr == 'to_index_level' and x.args and isinstance(x.args[0], ast.Name) and x.args[0].id in accs:
+                        return x.args[0].id
+                if isinstance(x, ast.Assign) and isinstance(x.targets[0], ast.Attribute) and x.targets[0].attr == 'offset' and isinstance(x.value, ast.Name) and x.value.id in accs:
+                    return x.value.id
+            return None
+
+        for lp in walk_local(f.node):
+            if not isinstance(lp, (ast.For, ast.While)):
+                continue
+            collects = []
+            for s in ast.walk(lp):
+                if isinstance(s, ast.Assign) and isinstance(s.targets[0], ast.Subscript) and isinstance(s.targets[0].value, ast.Name) and s.targets[0].value.id in sinks:
+                    collects.append(s)
+                elif isinstance(s, ast.Call) and isinstance(s.func, ast.Attribute) and s.func.attr in ('append', 'extend') and isinstance(s.func.value, ast.Name) \
+                        and s.func.value.id in sinks:
+                    collects.append(s)
+                elif feeds_targets and isinstance(s, ast.Yield):
+                    collects.append(s)
+            if not collects:
+                continue
+            # innermost collecting loop only
+            if any(isinstance(o, (ast.For, ast.While)) and o is not lp and all(any(y is c for y in ast.walk(o)) for c in collects) for o in ast.walk(lp)):
+                continue
+            # the collected things are nodes: built by a level constructor / to_index_level, or taken from `.targets`
+            nodeish = any(isinstance(x, ast.Attribute) and x.attr == 'targets' for x in ast.walk(lp)) or \
+                any(isinstance(x, ast.Call) and ('LEVEL_CONSTRUCTOR' in call_name(x) or call_name(x).endswith('from_level_data') or call_name(x).endswith('to_index_level')) for x in ast.walk(lp))
+            if not nodeish:
+                continue
+            n += 1
+            key = f'{f.qualname.split(".", 1)[1]}:siblings'
+            # the running total may be carried by an enclosing loop of the same function
+            acc = running(lp)
+            if acc is None:
+                for o in walk_local(f.node):
+                    if isinstance(o, (ast.For, ast.While)) and o is not lp and any(y is lp for y in ast.walk(o)):
+                        acc = acc or running(o)
+            if acc is not None:
+                ctx.ok(R, f, lp, f'each collected node gets the running total `{acc}` as its offset', key=key)
+            else:
+                ctx.bad(R, f, collects[0], f'`{norm(collects[0])[:60]}` puts nodes under a new parent without giving each the running length of its preceding siblings as offset: '
+                        'they keep offsets relative to another parent and label lookup returns wrong positions', key=key)
+        # leaves cut off
+        cuts = [s for s in walk_local(f.node) if isinstance(s, ast.Assign) and isinstance(s.targets[0], ast.Attribute) and s.targets[0].attr == 'targets'
+                and isinstance(s.value, ast.Constant) and s.value.value is None and isinstance(s.targets[0].value, ast.Name) and s.targets[0].value.id != f.self_name()]
+        if cuts:
+            n += 1
+            key = f'{f.qualname.split(".", 1)[1]}:leaves-cut'
+            resets = any(isinstance(s, ast.Assign) and isinstance(s.targets[0], ast.Attribute) and s.targets[0].attr == '_length' and isinstance(s.value, ast.Constant)
+                         and s.value.value is None for s in walk_local(f.node))
+            acc = None
+            from sfa.rules.blockrules import _enclosing_ifs
+            branch = [(id(i), pol) for i, pol in _enclosing_ifs(f.node, cuts[0])][:1]
+            for o in walk_local(f.node):
+                # a recomputation on the same branch of the function as the cut, after it
+                if isinstance(o, (ast.For, ast.While)) and o.lineno > cuts[0].lineno and [(id(i), pol) for i, pol in _enclosing_ifs(f.node, o)][:1] == branch:
+                    acc = acc or running(o)
+            if resets and acc is not None:
+                ctx.ok(R, f, cuts[0], f'after cutting leaves the cached lengths are reset and offsets recomputed from the running total `{acc}`', key=key)
+            else:
+                ctx.bad(R, f, cuts[0], f'`{norm(cuts[0])}` turns nodes into leaves (their length becomes the number of their labels) but ' +
+                        ('cached lengths are not reset' if not resets else 'the offsets of their siblings are not recomputed') + ': lookups on the derived index are shifted', key=key)
+    ctx.require(n >= 5, 'sites that place IndexLevel nodes under a parent')
